@@ -96,6 +96,20 @@ func conv(x interface{}, t reflect.Type) (reflect.Value, cstat) {
 	return reflect.Zero(t), cErr
 }
 
+// typeConvertible reports whether Go converts values of basic type from to type to.
+func typeConvertible(from, to reflect.Type) bool {
+	if to == tIface || from == to {
+		return true
+	}
+	switch from {
+	case tInt:
+		return to == tFloat || to == tString
+	case tFloat:
+		return to == tInt
+	}
+	return false
+}
+
 // ---------- structural equality with exact dynamic types ----------
 
 func unwrap(v reflect.Value) reflect.Value {
@@ -248,6 +262,9 @@ type outcome struct {
 	apply   func(obsCap func() int)
 	mutates bool
 	dest    *target // place whose capacity is observed after a growing append
+	// known names a shape affected by the known defect "appendSlice appends element by element"
+	// (growth | error); such steps are skipped unless VERIF_C10_STRICT_APPEND is set
+	known string
 }
 
 func errOut(class string) outcome { return outcome{mustErr: true, errClass: class} }
@@ -414,6 +431,19 @@ func planWrite(t target, st *Step) outcome {
 	return errOut("kind")
 }
 
+// rhsElemType is the static element type of a slice-like operand.
+func rhsElemType(v *Val) reflect.Type {
+	switch v.K {
+	case "ti":
+		return tInt
+	case "tf":
+		return tFloat
+	case "ts":
+		return tString
+	}
+	return tIface
+}
+
 // planApp models `T += V` (dst == T) and `W = T + V` (dst == W).
 func planApp(t target, dst target, st *Step) outcome {
 	switch t.cls {
@@ -421,16 +451,41 @@ func planApp(t target, dst target, st *Step) outcome {
 		et := t.v.Type().Elem()
 		var elems []reflect.Value
 		cs := cOK
+		known := ""
 		if st.V.sliceLike() {
 			// a slice operand is concatenated element by element
 			xv := reflect.ValueOf(st.V.goValue())
+			if st.V.K != "l" && !typeConvertible(xv.Type().Elem(), et) {
+				// typed operand whose element type has no conversion to the element type
+				if xv.Len() == 0 {
+					return outcome{skip: "empty_ill_typed_slice_operand"}
+				}
+				return errOut("conv")
+			}
+			// known defect: with operands of different element types anko appends one element at a
+			// time, so elements that still fit are written into the shared array before a later
+			// element forces a reallocation or fails to convert
+			perElem := rhsElemType(st.V) != et
+			spare := t.v.Cap() - t.v.Len()
 			for i := 0; i < xv.Len(); i++ {
 				ev, es := conv(xv.Index(i).Interface(), et)
 				cs = worse(cs, es)
+				if es != cOK && perElem && i >= 1 && spare >= 1 && known == "" {
+					known = "error"
+				}
 				if es == cErr {
-					return errOut("conv")
+					o := errOut("conv")
+					o.known = known
+					return o
 				}
 				elems = append(elems, ev)
+			}
+			if perElem && known == "" && spare >= 1 && len(elems) > spare {
+				known = "growth"
+			}
+			if len(elems) == 0 && t.fld != "" && (dst.slot != t.slot || dst.fld != t.fld) {
+				// `w = s.D + []` hands out the field itself, i.e. `w = s.D`
+				return outcome{skip: "field_alias_unspecified"}
 			}
 		} else {
 			ev, es := conv(st.V.goValue(), et)
@@ -441,7 +496,7 @@ func planApp(t target, dst target, st *Step) outcome {
 			elems = []reflect.Value{ev}
 		}
 		d := dst
-		return outcome{mayErr: cs == cEither, mutates: true, dest: &d, apply: func(obsCap func() int) {
+		return outcome{mayErr: cs == cEither, mutates: true, dest: &d, known: known, apply: func(obsCap func() int) {
 			dst.v.Set(appendMirror(t.v, elems, obsCap()))
 		}}
 	case "str":
@@ -542,6 +597,15 @@ func looseEq(elem reflect.Value, k interface{}) int {
 	if !e.IsValid() || k == nil {
 		if !e.IsValid() && k == nil {
 			return 1
+		}
+		// nil against a (possibly nil) slice or map: not fixed
+		if e.IsValid() && (e.Kind() == reflect.Slice || e.Kind() == reflect.Map) {
+			return -1
+		}
+		if k != nil {
+			if kk := reflect.ValueOf(k).Kind(); kk == reflect.Slice || kk == reflect.Map {
+				return -1
+			}
 		}
 		return 0
 	}
